@@ -95,11 +95,17 @@ def polyline_cases(draw, degenerate=False):
     g = draw(st.sampled_from([F(1), F(1), F(1), F(1, 64), F(128)])) if scale >= 1 else F(1)
     P = [[x * g for x in pt] for pt in P]
     q = [x * g for x in q]
+    ptform = None
+    if g >= 1 and draw(st.integers(0, 4)) == 0:
+        # integer vertices handed over as an int64 array (the query point keeps its fractions)
+        P2 = [[F(int(x)) for x in pt] for pt in P]
+        if all(a != b for a, b in zip(P2[:-1], P2[1:])) or degenerate:
+            P, ptform = P2, "int64"
     return {"U": U, "P": P, "qkind": qkind, "q": q, "t0": draw(st.integers(1, 31)), "pscale": scale, "gscale": g,
             "eps": draw(st.sampled_from([F(1, 2048), F(1, 4096), F(1, 1024), F(3, 8192)])),
             "off": draw(st.sampled_from([F(0), F(0), F(1, 4096), F(-1, 2048)])) * g,
             "vi": draw(st.integers(0, n - 1)), "num": draw(st.sampled_from(["float", "npfloat"])),
-            "history": draw(st.integers(0, 3)) == 0}
+            "history": draw(st.integers(0, 3)) == 0, "ptform": ptform}
 
 
 def build_polyline(case, use=None):
@@ -107,7 +113,7 @@ def build_polyline(case, use=None):
     ``use`` (a projection / intersection), and only then given its control points through the public setter."""
     num = case["num"]
     U = [lib.conv_knot(u, num) for u in case["U"]]
-    P = lib.conv_points(case["P"], num)
+    P = lib.conv_points(case["P"], num, case.get("ptform"))  # "int64": integral vertices as an int64 array
     wl = None if case.get("w") is None else [lib.conv_val(x, num) for x in case["w"]]
     if use is not None:
         curve = lib.Curve(U, lib.conv_points([[c + 1 for c in pt] for pt in case["P"][::-1]], num), wl)
@@ -119,6 +125,9 @@ def build_polyline(case, use=None):
         curve.ctrlpoints = P
     else:
         curve = lib.Curve(U, P, wl)
+    if case.get("ptform") == "int64" and use is not None:
+        P = lib.conv_points(case["P"], num)  # the setter path keeps float vertices (decoy arithmetic needs them)
+        curve.ctrlpoints = P
     ref = State([oracle.frac(u) for u in U], 1, [tuple(oracle.frac(x) for x in pt) for pt in P],
                 None if wl is None else [oracle.frac(x) for x in wl], False)
     return curve, ref
